@@ -373,6 +373,8 @@ func runC02(c *Ctx) {
 		c.verdict(len(find(fn, callTo(ftip))) >= 1, c.nm(fn)+" | filter-header height read from RegFilterHeaders.ChainTip()", c.P.Pos(fn.Pos()), "RegFilterHeaders.ChainTip()", "rollBackToHeight no longer reads the filter-header store's tip")
 	})
 
+	c.rule("C02.V6", "the headers a reorganisation displaces are gone for good: a hash whose index entry survives the rollback resolves again once the new branch has grown past its height - to the new branch's header at that height - and headers building on the displaced header are then weighed as a fork of the accepted chain: "+rolledBackEntriesRemovedDoc, func() { c.rolledBackEntriesRemoved() })
+
 	c.rule("C02.W1", "rollBackToHeight is called only from handleHeadersMsg", func() {
 		rollM := c.method("neutrino", "blockManager", "rollBackToHeight")
 		c.whoMay("blockManager.rollBackToHeight", callTo(rollM), []string{fnHandleHeaders}, 2)
